@@ -17,6 +17,7 @@ func smokeCfg() Config {
 func TestSmoke(t *testing.T) {
 	w := NewWorld(t, "smoke", smokeCfg())
 	w.Relay = NewRelayer(w)
+	w.Shadow = &Shadow{ByID: map[string]*CInfo{}}
 	w.SetupProvider(nil)
 	owner := w.Accts["owner0"]
 	w.Tick()
